@@ -115,9 +115,78 @@ impl Gen {
         if refchess::valid(&b) { Some(b) } else { None }
     }
 
+    /// pins: own king, own man X and an enemy slider on one line (nothing between), X possibly a pawn one step from
+    /// promotion with the pinner on the promotion rank, X possibly able to capture the pinner or to move along the line;
+    /// plus a few random men.  Exercises the pinned-piece branch of the legality filter far more often than random play.
+    pub fn pin_family(&self, rng: &mut Rng) -> Option<Board> {
+        let dirs: [(i32, i32); 8] = [(1, 0), (-1, 0), (0, 1), (0, -1), (1, 1), (1, -1), (-1, 1), (-1, -1)];
+        let side = if rng.chance(1, 2) { Color::White } else { Color::Black };
+        let opp = if side == Color::White { Color::Black } else { Color::White };
+        let mut occ = [None::<(Color, Piece)>; 64];
+        let (dr, df) = *rng.pick(&dirs);
+        let diagonal = dr != 0 && df != 0;
+        let kr = rng.below(8) as i32; let kf = rng.below(8) as i32;
+        let i = 1 + rng.below(3) as i32;
+        let j = i + 1 + rng.below(3) as i32;
+        let on = |r: i32, f: i32| r >= 0 && r < 8 && f >= 0 && f < 8;
+        let (xr, xf) = (kr + i * dr, kf + i * df);
+        let (pr, pf) = (kr + j * dr, kf + j * df);
+        if !on(xr, xf) || !on(pr, pf) { return None; }
+        occ[(kr * 8 + kf) as usize] = Some((side, Piece::King));
+        let pinner = if rng.chance(1, 3) { Piece::Queen } else if diagonal { Piece::Bishop } else { Piece::Rook };
+        occ[(pr * 8 + pf) as usize] = Some((opp, pinner));
+        // the pinned man: often a pawn (on its 7th rank when that fits), else any piece
+        let seventh = if side == Color::White { 6 } else { 1 };
+        let x = if xr == seventh && rng.chance(3, 4) { Piece::Pawn } else { *rng.pick(&[Piece::Pawn, Piece::Knight, Piece::Bishop, Piece::Rook, Piece::Queen]) };
+        if x == Piece::Pawn && (xr == 0 || xr == 7) { return None; }
+        occ[(xr * 8 + xf) as usize] = Some((side, x));
+        // enemy king somewhere not adjacent to mine
+        let mut tries = 0;
+        loop {
+            let s = rng.below(64) as usize;
+            let (r, f) = ((s / 8) as i32, (s % 8) as i32);
+            if occ[s].is_none() && (r - kr).abs().max((f - kf).abs()) >= 2 {
+                // keep it off the pin line between king and pinner
+                occ[s] = Some((opp, Piece::King));
+                break;
+            }
+            tries += 1;
+            if tries > 200 { return None; }
+        }
+        for _ in 0..rng.below(7) {
+            let s = rng.below(64) as usize;
+            // do not block the pin line
+            let (r, f) = ((s / 8) as i32, (s % 8) as i32);
+            let mut on_line = false;
+            for t in 1..j { if r == kr + t * dr && f == kf + t * df { on_line = true; } }
+            if on_line || occ[s].is_some() { continue; }
+            let p = *rng.pick(&[Piece::Pawn, Piece::Pawn, Piece::Pawn, Piece::Knight, Piece::Bishop, Piece::Rook, Piece::Queen]);
+            if p == Piece::Pawn && (r == 0 || r == 7) { continue; }
+            occ[s] = Some((if rng.chance(1, 2) { side } else { opp }, p));
+        }
+        let mut pcs = [0u64; 6];
+        let (mut white, mut black) = (0u64, 0u64);
+        for s in 0..64 { if let Some((c, p)) = occ[s] { pcs[p.index()] |= 1 << s; if c == Color::White { white |= 1 << s } else { black |= 1 << s } } }
+        // an en-passant square now and then (ep captures by or next to pinned pawns)
+        let mut ep = None;
+        let mut cands = vec![];
+        for f in 0..8usize {
+            if side == Color::White {
+                if occ[32 + f] == Some((Color::Black, Piece::Pawn)) && occ[40 + f].is_none() && occ[48 + f].is_none() { cands.push((40 + f) as u8); }
+            } else if occ[24 + f] == Some((Color::White, Piece::Pawn)) && occ[16 + f].is_none() && occ[8 + f].is_none() { cands.push((16 + f) as u8); }
+        }
+        if !cands.is_empty() && rng.chance(1, 2) { ep = Some(*rng.pick(&cands)); }
+        let b = board_from_raw(pcs, white, black, side, 0, ep, rng.below(100) as u32, 1 + rng.below(200) as u32)?;
+        if refchess::valid(&b) { Some(b) } else { None }
+    }
+
     /// a valid position from the mixed stream
     pub fn valid_position(&self, rng: &mut Rng, out: &mut Out) -> Board {
         loop {
+            if rng.chance(1, 6) {
+                if let Some(b) = self.pin_family(rng) { out.count("pos_pin_family"); return b; }
+                continue;
+            }
             if rng.chance(1, 2) {
                 let b = self.playout(rng, 60);
                 out.count("pos_playout");
